@@ -16,6 +16,7 @@ import (
 	"fmt"
 	"sync/atomic"
 	"testing"
+	"unsafe"
 
 	"github.com/flynn/noise"
 
@@ -96,17 +97,64 @@ func vfC02Clone(ini, rsp *secureSession) (*secureSession, *secureSession, *vfc02
 	return mk(ini, ca), mk(rsp, cb), ca, cb
 }
 
-// vfC02Poison makes a buffer that was handed back to the pool too early visible: after each step a
-// buffer of the size class of the frame just handled is taken, overwritten and returned.
-func vfC02Poison(frameLen int) {
-	if frameLen <= 0 {
-		return
-	}
-	b := pool.Get(frameLen)
+// vfC02PoolCheck is the harness acting as one more user of the process-wide buffer pool, after every step: for
+// the size classes of the frames just handled it takes a batch of buffers, overwrites them and hands them
+// back.  A buffer that the session released too early - or twice, so that the pool hands the same array to
+// two owners - is thereby overwritten while the session still reads from it, and the altered bytes show up
+// at the session's next Read (L1).  What it can see directly is reported as L2: two buffers of one batch
+// with the same backing array, or a pooled buffer that is the backing array of a live receive queue.
+var vfC02PoisonSlab = func() []byte {
+	b := make([]byte, 1<<17)
 	for i := range b {
 		b[i] = 0xA5
 	}
-	pool.Put(b)
+	return b
+}()
+
+func vfC02PoolCheck(live func() [][]byte) func(frameLens ...int) string {
+	return func(frameLens ...int) string {
+		what := ""
+		seenClass := map[int]bool{}
+		for _, fl := range frameLens {
+			if fl <= 0 {
+				continue
+			}
+			for _, sz := range []int{fl, fl + LengthPrefixLength} {
+				probe := pool.Get(sz)
+				class := cap(probe)
+				pool.Put(probe)
+				if seenClass[class] {
+					continue
+				}
+				seenClass[class] = true
+				const batch = 4
+				var bufs [batch][]byte
+				for i := range bufs {
+					bufs[i] = pool.Get(sz)
+				}
+				for i := range bufs {
+					pi := unsafe.SliceData(bufs[i][:cap(bufs[i])])
+					for j := 0; j < i; j++ {
+						if pi == unsafe.SliceData(bufs[j][:cap(bufs[j])]) {
+							what = fmt.Sprintf("the pool handed out the same %d-byte array twice (double Put)", cap(bufs[i]))
+						}
+					}
+					for _, q := range live() {
+						if q != nil && cap(q) > 0 && pi == unsafe.SliceData(q[:cap(q)]) {
+							what = fmt.Sprintf("a pooled %d-byte buffer is the backing array of a live receive queue", cap(bufs[i]))
+						}
+					}
+					for b := bufs[i][:cap(bufs[i])]; len(b) > 0; {
+						b = b[copy(b, vfC02PoisonSlab):]
+					}
+				}
+				for i := range bufs {
+					pool.Put(bufs[i])
+				}
+			}
+		}
+		return what
+	}
 }
 
 var vfC02NoiseScale = vfc02.Scale{
@@ -163,8 +211,13 @@ func TestVerifC02Noise(t *testing.T) {
 			if walk%2 == 1 {
 				ws, rs, wire, note = rsp, ini, ca.In, "responder writes"
 			}
+			revWire := ca.In
+			if wire == ca.In {
+				revWire = cb.In
+			}
 			return &vfc02.ChanSession{
-				W: ws, R: rs, Wire: wire, Note: note, After: vfC02Poison,
+				W: ws, R: rs, Wire: wire, Note: note, RevW: rs, RevR: ws, RevWire: revWire,
+				After: vfC02PoolCheck(func() [][]byte { return [][]byte{rs.qbuf, ws.qbuf} }),
 				Proj: func() *vfc02.ChanProj {
 					return &vfc02.ChanProj{QLive: rs.qbuf != nil, QLen: len(rs.qbuf), QSeek: rs.qseek,
 						RNonce: rs.dec.Nonce(), WNonce: ws.enc.Nonce(), Buffered: rs.insecureReader.Buffered()}
